@@ -199,22 +199,78 @@ pub struct Tracked {
     pub v: u32,
     pub id: u32,
     pub tag: u32,
+    /// the element's size is a build-time parameter of the harness (cargo features `big-elements`: 164 bytes,
+    /// `huge-elements`: 4236 bytes), so that code paths chosen by `size_of::<T>()` are driven too
+    pub pad: Pad,
+}
+
+#[cfg(feature = "huge-elements")]
+pub type Pad = [u64; 528];
+#[cfg(all(feature = "big-elements", not(feature = "huge-elements")))]
+pub type Pad = [u64; 19];
+#[cfg(not(any(feature = "big-elements", feature = "huge-elements")))]
+pub type Pad = [u64; 0];
+#[inline]
+fn pad_of(v: u32) -> Pad {
+    [v as u64 ^ 0x5a5a_5a5a; std::mem::size_of::<Pad>() / 8]
 }
 
 impl Tracked {
     pub fn new(v: u32) -> Self {
         let id = table_alloc(false);
-        Tracked { v, id, tag: id }
+        Tracked { v, id, tag: id, pad: pad_of(v) }
     }
     pub fn with_tag(v: u32, tag: u32) -> Self {
-        Tracked { v, id: table_alloc(false), tag }
+        Tracked { v, id: table_alloc(false), tag, pad: pad_of(v) }
+    }
+}
+
+// Armed panics: the `countdown`-th next call of the armed kind (clone / eq / cmp / hash) on this thread panics
+// (once), so that histories can unwind out of a user-supplied trait impl in the middle of a library call.
+pub const ARM_CLONE: u8 = 1;
+pub const ARM_EQ: u8 = 2;
+pub const ARM_CMP: u8 = 3;
+pub const ARM_HASH: u8 = 4;
+thread_local! {
+    static ARM: std::cell::Cell<(u8, u32)> = const { std::cell::Cell::new((0, 0)) };
+}
+pub fn arm(kind: u8, countdown: u32) {
+    ARM.with(|a| a.set((kind, countdown)));
+}
+/// true if the armed panic has not fired (it is disarmed either way)
+pub fn disarm() -> bool {
+    ARM.with(|a| a.replace((0, 0)).0 != 0)
+}
+#[inline]
+pub fn arm_hit(kind: u8) {
+    let fire = ARM
+        .try_with(|a| {
+            let (k, c) = a.get();
+            if k != kind {
+                return false;
+            }
+            if c == 0 {
+                a.set((0, 0));
+                true
+            } else {
+                a.set((k, c - 1));
+                false
+            }
+        })
+        .unwrap_or(false);
+    if fire {
+        panic!("armed panic in a trait impl of the element type (kind {kind})");
     }
 }
 
 impl Clone for Tracked {
     fn clone(&self) -> Self {
+        arm_hit(ARM_CLONE);
         table_check_live(self.id, "clone");
-        Tracked { v: self.v, id: table_alloc(true), tag: self.tag }
+        if self.pad != pad_of(self.v) {
+            TABLE.with(|t| t.borrow_mut().faults.push(format!("clone of id {}: the element's bytes were damaged", self.id)));
+        }
+        Tracked { v: self.v, id: table_alloc(true), tag: self.tag, pad: self.pad }
     }
 }
 
@@ -238,6 +294,7 @@ impl Drop for Tracked {
 
 impl PartialEq for Tracked {
     fn eq(&self, o: &Self) -> bool {
+        arm_hit(ARM_EQ);
         table_check_live(self.id, "eq");
         table_check_live(o.id, "eq");
         self.v == o.v
@@ -251,6 +308,7 @@ impl PartialOrd for Tracked {
 }
 impl Ord for Tracked {
     fn cmp(&self, o: &Self) -> std::cmp::Ordering {
+        arm_hit(ARM_CMP);
         table_check_live(self.id, "cmp");
         table_check_live(o.id, "cmp");
         self.v.cmp(&o.v)
@@ -258,6 +316,7 @@ impl Ord for Tracked {
 }
 impl Hash for Tracked {
     fn hash<H: Hasher>(&self, h: &mut H) {
+        arm_hit(ARM_HASH);
         self.v.hash(h)
     }
 }
